@@ -36,7 +36,7 @@ pub fn gen_c02(rng: &mut Rng, tier: Tier) -> Case {
     let env = if rng.chance(1, 2) { crate::env::EnvPlan::whole() } else { gen::gen_env(rng, true) };
     let slow_env = env.modes.iter().any(|m| match m {
         crate::env::IoMode::Whole => false,
-        crate::env::IoMode::Chop { max } | crate::env::IoMode::ChopIntr { max, .. } => *max < 64,
+        crate::env::IoMode::Chop { max } | crate::env::IoMode::ChopIntr { max, .. } | crate::env::IoMode::ChopBurst { max, .. } => *max < 64,
     });
     let budget = if spec.knobs.levels >= 7 {
         60
@@ -63,21 +63,46 @@ pub fn gen_c02(rng: &mut Rng, tier: Tier) -> Case {
         }
     }
     let sparse_hole = crate::props_file::gen_hole(rng, 15);
+    let mut env = env;
+    if rng.chance(1, 5) {
+        // transient-fault family: one read or seek of the source fails; every later probe runs on
+        // a reset cursor and must be answered exactly
+        env.faults = vec![crate::env::FaultSpec { k: rng.log_uniform(8, 2000), err: rng.below(9) as u8 }];
+    }
     Case::Cursor(CursorCase { spec, env, steps, fresh_each: true, v1: false, sparse_hole })
 }
 
 pub fn check_c02(case: &Case, st: &mut Stats) -> Verdict {
+    if matches!(case, Case::File(f) if f.big.is_some()) {
+        return crate::props_file::check_big_seeks(case, st);
+    }
     let Case::Cursor(c) = case else { return viol("C02", "harness", "wrong case kind".into()) };
     let entries = c.spec.entries.materialize();
-    let r = run_case(case, &c.env, &RunOpts::default());
+    let mut opts = RunOpts::default();
+    opts.continue_after_err = !c.env.faults.is_empty();
+    let r = run_case(case, &c.env, &opts);
     st.absorb_env(&r);
     if let Some(e) = &r.setup_err {
         return viol("C02", "setup", e.clone());
     }
+    let fired = r.env.fired();
+    let mut errs = std::collections::BTreeSet::new();
+    for (i, rec) in r.recs.iter().enumerate() {
+        if rec.res.is_err() && fired.iter().any(|f| rec.clock_before < f.k && f.k <= rec.clock_after) {
+            errs.insert(i);
+        }
+    }
+    if !fired.is_empty() {
+        st.c.inc("fired.transient_source_fault_between_probes");
+        if errs.iter().any(|i| *i < 2) {
+            return None; // the open itself failed (judged by C12)
+        }
+    }
     let mut ms = model::CursorModelStats { window_entries: 0, abs_from_window: 0, judged: 0, unjudged: 0 };
-    let exp = model::expect_cursor(c, &entries, &mut ms);
-    if let Some((_i, oracle, msg)) = model::compare(&r.recs, &exp) {
-        return viol("C02", &oracle, msg);
+    let exp = model::expect_cursor_with_errs(c, &entries, &mut ms, &errs);
+    if let Some((_i, oracle, msg)) = model::compare_allowing(&r.recs, &exp, &errs) {
+        let tag = if fired.is_empty() { oracle } else { format!("after-transient-fault.{}", oracle) };
+        return viol("C02", &tag, msg);
     }
     st.c.add("seeks_judged", ms.judged);
     st.c.add("seeks_returning_none", ms.window_entries);
